@@ -775,6 +775,24 @@ func TestVerifC05(t *testing.T) {
 			rep.Count("not_approved_pushes_polled", n)
 		}
 	})
+	// S2c: a push transaction is the business of the user it was started for.  A second start on the same push cookie -
+	// ten seconds later, from another user's session - followed by that other user's approval on her own device must
+	// not raise the first user's session (nor anybody's, through the first user's cookie, beyond what they approved)
+	scenario("vip-push-restarted-by-other-user", func() {
+		a, m := w.newUser("s2ca", true), w.newUser("s2cm", true)
+		sa, sm := &c05Session{}, &c05Session{}
+		w.login(sa, a, true)
+		w.login(sm, m, true)
+		w.pushStart(sa, sa) // goes to a's device; a never approves
+		time.Sleep(11 * time.Second)
+		w.pushStart(sm, sa) // m's session with a's push cookie
+		w.approve(m)        // m approves what reached her device
+		for k := 0; k < 3; k++ {
+			w.poll(sa, sa, "restarted-by-other-user")
+		}
+		w.poll(sm, sa, "restarted-by-other-user:own-approval")
+		rep.Count("push_restart_checked", 1)
+	})
 	// S4b: an expired challenge of one hardware-token ceremony must stay dead when the same user starts the other kind of
 	// ceremony afterwards (both ceremonies keep their pending challenge in one per-user record); same real wait
 	scenario("expired-challenge-other-ceremony", func() {
@@ -1068,6 +1086,7 @@ func TestVerifC05(t *testing.T) {
 	rep.Floor("mixed_credential_requests", 2)
 	rep.Floor("cli_token_lifetimes_checked", 2)
 	rep.Floor("not_approved_pushes_polled", 8)
+	rep.Floor("push_restart_checked", 1)
 	rep.Floor("two_cookie_requests", 6)
 	rep.Floor("storage_fault_scenarios", 1)
 	rep.Assume("Okta OTP/push level upgrades are exercised in C17's Okta deployment for redirects only; the push service, directory-less password backend and hardware tokens are local fakes / soft tokens")
